@@ -234,7 +234,10 @@ impl<'a> Iterator for Tokenizer<'a> {
                     self.skip_while(|c, esc| c != '"' || esc);
 
                     // skip closing "
-                    self.bump()?;
+                    // (a string that is never closed is an error, not the end of the program)
+                    if self.bump().is_none() {
+                        return Some(Illegal);
+                    }
 
                     // this reads the string including escape characters
                     String(self.read_str(start + 1, self.offset() - 1))
